@@ -42,7 +42,34 @@ struct St {
     hits: HashMap<&'static str, usize>,
     lookups: Vec<Lookup>,
     record_lookups: bool,
+    // --- caller threads of a `Threads` operation
+    thr: Thr,
 }
+
+/// Scheduler state of a `Threads` operation: exactly one registered caller thread runs at a time.
+#[derive(Default)]
+struct Thr {
+    active: bool,
+    ids: HashMap<ThreadId, usize>,
+    parked: Vec<bool>,
+    done: Vec<bool>,
+    turn: Option<usize>,
+    schedule: Vec<u8>,
+    pos: usize,
+    yields: usize,
+    switches: usize,
+    inside_lookup: usize,
+    trace: Vec<u8>,
+    lookups: Vec<Vec<Lookup>>,
+    broken: bool,
+}
+
+const Y_START: u8 = 0;
+const Y_STEP: u8 = 1;
+const Y_TOKENIZE: u8 = 2;
+const Y_LOOKUP: u8 = 3;
+const Y_END: u8 = 4;
+const THR_WATCHDOG: Duration = Duration::from_secs(10);
 
 struct H {
     st: Mutex<St>,
@@ -131,6 +158,90 @@ impl H {
                 return false;
             }
         }
+    }
+
+    /// Choose who runs next (all threads that are not done are parked, the caller included).
+    fn thr_pick(t: &mut Thr, me: Option<usize>) {
+        let runnable: Vec<usize> = (0..t.done.len()).filter(|i| !t.done[*i]).collect();
+        if runnable.is_empty() {
+            t.turn = None;
+            return;
+        }
+        let c = t.schedule.get(t.pos).copied();
+        t.pos += 1;
+        let next = match (c, me) {
+            (Some(0), Some(m)) if !t.done[m] => m,
+            (Some(c), _) => runnable[(c.max(1) as usize - 1) % runnable.len()],
+            (None, _) => runnable[0],
+        };
+        if let Some(m) = me {
+            if m != next {
+                t.switches += 1;
+            }
+        }
+        t.turn = Some(next);
+    }
+
+    /// Wait until it is `me`'s turn (or control is lost).
+    fn thr_wait<'a>(&'a self, mut st: std::sync::MutexGuard<'a, St>, me: usize) -> std::sync::MutexGuard<'a, St> {
+        while st.thr.turn != Some(me) && !st.thr.broken && st.thr.active {
+            let (g, t) = self.cv.wait_timeout(st, THR_WATCHDOG).unwrap();
+            st = g;
+            if t.timed_out() && st.thr.turn != Some(me) && !st.thr.broken && st.thr.active {
+                // whoever has the turn is not coming back (it may block on a lock one of the parked
+                // threads holds): give up control, everybody runs freely from here on
+                st.thr.broken = true;
+                self.cv.notify_all();
+            }
+        }
+        st
+    }
+
+    /// A scheduling point reached by a registered caller thread that holds the turn.
+    fn thr_yield(&self, kind: u8) {
+        let mut st = self.st.lock().unwrap();
+        if !st.thr.active || st.thr.broken {
+            return;
+        }
+        let Some(&me) = st.thr.ids.get(&std::thread::current().id()) else { return };
+        st.thr.yields += 1;
+        if kind == Y_TOKENIZE {
+            st.thr.inside_lookup += 1;
+        }
+        st.thr.trace.push(me as u8);
+        st.thr.trace.push(kind);
+        st.thr.parked[me] = true;
+        H::thr_pick(&mut st.thr, Some(me));
+        self.cv.notify_all();
+        let mut st = self.thr_wait(st, me);
+        st.thr.parked[me] = false;
+    }
+
+    fn thr_register(&self, me: usize) {
+        let mut st = self.st.lock().unwrap();
+        st.thr.ids.insert(std::thread::current().id(), me);
+        st.thr.parked[me] = true;
+        st.thr.trace.push(me as u8);
+        st.thr.trace.push(Y_START);
+        self.cv.notify_all();
+        let mut st = self.thr_wait(st, me);
+        st.thr.parked[me] = false;
+    }
+
+    fn thr_finish(&self, me: usize) {
+        let mut st = self.st.lock().unwrap();
+        st.thr.done[me] = true;
+        st.thr.trace.push(me as u8);
+        st.thr.trace.push(Y_END);
+        if !st.thr.broken {
+            H::thr_pick(&mut st.thr, Some(me));
+        }
+        self.cv.notify_all();
+    }
+
+    fn thr_take_lookups(&self, me: usize) -> Vec<Lookup> {
+        let mut st = self.st.lock().unwrap();
+        st.thr.lookups.get_mut(me).map(|v| v.drain(..).collect()).unwrap_or_default()
     }
 
     fn count_workers() -> usize {
@@ -359,6 +470,15 @@ impl Handler for H {
 
     fn tokenize(&self, _text: &str) {
         let cur = std::thread::current();
+        {
+            let st = self.st.lock().unwrap();
+            if st.thr.active && st.thr.ids.contains_key(&cur.id()) {
+                drop(st);
+                // a caller thread of a `Threads` operation is inside Db::lookup, about to search
+                self.thr_yield(Y_TOKENIZE);
+                return;
+            }
+        }
         if !cur.name().map(|n| n.starts_with("thrd-tantivy-index")).unwrap_or(false) {
             return;
         }
@@ -396,6 +516,15 @@ impl Handler for H {
 
     fn lookup(&self, phrase: &str, hit: Option<&anything::Constant>) {
         let mut st = self.st.lock().unwrap();
+        if st.thr.active {
+            if let Some(&me) = st.thr.ids.get(&std::thread::current().id()) {
+                let l = Lookup { phrase: phrase.to_string(), hit: hit.map(|c| desc_of(phrase, c, None)) };
+                st.thr.lookups[me].push(l);
+                drop(st);
+                self.thr_yield(Y_LOOKUP);
+                return;
+            }
+        }
         if st.record_lookups {
             let l = Lookup { phrase: phrase.to_string(), hit: hit.map(|c| desc_of(phrase, c, None)) };
             st.lookups.push(l);
@@ -758,6 +887,171 @@ fn interleave(h: &Arc<H>, db: &anything::Db, iso: Option<&anything::Db>, iso_fre
     Event::Interleave { slot, max_open, queries: out }
 }
 
+// ---------------------------------------------------------------------------------------------
+// C18 with real caller threads
+
+type CallerOut = (usize, Vec<Res>, Vec<Desc>, Vec<Lookup>, usize, Option<String>);
+
+fn caller(h: &H, db: &anything::Db, me: usize, mine: &[usize], queries: &[QuerySpec]) -> Vec<CallerOut> {
+    h.thr_register(me);
+    let mut out = Vec::new();
+    for &qi in mine {
+        let Some(spec) = queries.get(qi) else { continue };
+        let mut results = Vec::new();
+        let mut lookups = Vec::new();
+        let mut steps = 0;
+        let mut raw: Vec<anything::Description> = Vec::new();
+        let mut parse_error = None;
+        match anything::parse(&spec.text) {
+            Ok(parsed) => {
+                let o = if spec.describe { anything::Options::default().describe() } else { anything::Options::default() };
+                let mut it = anything::query(&parsed, db, o, &mut raw);
+                loop {
+                    h.thr_yield(Y_STEP);
+                    let r = it.next();
+                    lookups.extend(h.thr_take_lookups(me));
+                    match r {
+                        Some(r) => {
+                            steps += 1;
+                            results.push(res_of(r, false));
+                        }
+                        None => break,
+                    }
+                }
+            }
+            Err(e) => parse_error = Some(format!("parse: {e}")),
+        }
+        let descs: Vec<Desc> = raw
+            .into_iter()
+            .map(|x| match x {
+                anything::Description::Constant(p, c) => desc_of(&p, &c, Some(db)),
+            })
+            .collect();
+        out.push((qi, results, descs, lookups, steps, parse_error));
+    }
+    h.thr_finish(me);
+    out
+}
+
+/// Compile-time dispatch on whether the database type of the tree under test is `Sync` (a tree where
+/// it is not cannot be called from several threads at all, and must not break the harness build).
+struct Probe<'a, T>(&'a T);
+trait AsDb {
+    fn as_db(&self) -> &anything::Db;
+}
+impl AsDb for anything::Db {
+    fn as_db(&self) -> &anything::Db {
+        self
+    }
+}
+trait ViaThreads {
+    fn run_callers(&self, h: &Arc<H>, queries: &[QuerySpec], threads: &[Vec<usize>]) -> Option<Vec<CallerOut>>;
+}
+impl<'a, T: Sync + AsDb> ViaThreads for Probe<'a, T> {
+    fn run_callers(&self, h: &Arc<H>, queries: &[QuerySpec], threads: &[Vec<usize>]) -> Option<Vec<CallerOut>> {
+        let shared: &T = self.0;
+        let n = threads.len();
+        let mut all = Vec::new();
+        std::thread::scope(|s| {
+            let handles: Vec<_> = threads
+                .iter()
+                .enumerate()
+                .map(|(me, mine)| {
+                    let h: &H = h;
+                    s.spawn(move || caller(h, shared.as_db(), me, mine, queries))
+                })
+                .collect();
+            // wait until every caller has registered and parked, then hand out the first turn
+            {
+                let mut st = h.st.lock().unwrap();
+                loop {
+                    let ready = st.thr.ids.len() == n && st.thr.parked.iter().all(|p| *p);
+                    if ready || st.thr.broken {
+                        break;
+                    }
+                    let (g, t) = h.cv.wait_timeout(st, THR_WATCHDOG).unwrap();
+                    st = g;
+                    if t.timed_out() {
+                        st.thr.broken = true;
+                    }
+                }
+                if !st.thr.broken {
+                    H::thr_pick(&mut st.thr, None);
+                }
+                h.cv.notify_all();
+            }
+            for hd in handles {
+                if let Ok(v) = hd.join() {
+                    all.extend(v);
+                }
+            }
+        });
+        Some(all)
+    }
+}
+trait ViaNothing {
+    fn run_callers(&self, _h: &Arc<H>, _queries: &[QuerySpec], _threads: &[Vec<usize>]) -> Option<Vec<CallerOut>> {
+        None
+    }
+}
+impl<'a, T> ViaNothing for &Probe<'a, T> {}
+
+fn threads_op(h: &Arc<H>, db: &anything::Db, iso_fresh: Option<Mode>, queries: &[QuerySpec], threads: &[Vec<usize>], schedule: &[u8], slot: usize) -> Vec<Event> {
+    let n = threads.len();
+    {
+        let mut st = h.st.lock().unwrap();
+        st.thr = Thr { active: true, parked: vec![false; n], done: vec![false; n], lookups: vec![Vec::new(); n], schedule: schedule.to_vec(), ..Thr::default() };
+    }
+    // method resolution picks the threaded implementation exactly when `Db: Sync`
+    let outs = (&Probe(db)).run_callers(h, queries, threads);
+    let (yields, switches, inside_lookup, trace_hash, uncontrolled) = {
+        let mut st = h.st.lock().unwrap();
+        st.thr.active = false;
+        h.cv.notify_all();
+        (st.thr.yields, st.thr.switches, st.thr.inside_lookup, format!("{:016x}", fnv1a(&st.thr.trace)), st.thr.broken)
+    };
+    let Some(outs) = outs else {
+        return vec![Event::Threads { slot, threads: n, yields: 0, switches: 0, inside_lookup: 0, trace_hash: String::new(), uncontrolled: false, skipped: Some("the database type is not Sync in this tree".into()) }];
+    };
+    let mut evs = vec![Event::Threads { slot, threads: n, yields, switches, inside_lookup, trace_hash, uncontrolled, skipped: None }];
+    let mut by_query: HashMap<usize, CallerOut> = HashMap::new();
+    for o in outs {
+        by_query.insert(o.0, o);
+    }
+    let mut iso_cache: HashMap<(String, bool), (Vec<Res>, Vec<Desc>)> = HashMap::new();
+    let mut out = Vec::new();
+    for (qi, spec) in queries.iter().enumerate() {
+        let Some((_, results, descs, lookups, steps, parse_error)) = by_query.remove(&qi) else { continue };
+        let mut alone = |describe: bool| -> (Vec<Res>, Vec<Desc>) {
+            let key = (spec.text.clone(), describe);
+            if let Some(r) = iso_cache.get(&key) {
+                return r.clone();
+            }
+            let r = match iso_fresh {
+                Some(mode) => {
+                    let (fresh, _info) = open_db(h, usize::MAX, mode, &Plan::default());
+                    match fresh {
+                        Some(f) => eval_alone(&f, &spec.text, describe, false),
+                        None => (vec![Res::Err { msg: "isolation database could not be opened".into(), start: 0, end: 0 }], vec![]),
+                    }
+                }
+                None => (vec![], vec![]),
+            };
+            iso_cache.insert(key, r.clone());
+            r
+        };
+        let (iso_results, iso_descs) = alone(spec.describe);
+        let (iso_flip_results, _) = alone(!spec.describe);
+        let results = match parse_error {
+            Some(e) => vec![Res::Err { msg: e, start: 0, end: 0 }],
+            None => results,
+        };
+        out.push(InterleaveQuery { text: spec.text.clone(), describe: spec.describe, results, descs, lookups, iso_results, iso_descs, iso_flip_results, steps, exhausted: true });
+    }
+    evs.push(Event::Interleave { slot, max_open: n, queries: out });
+    evs
+}
+
 fn main() {
     let args: Vec<String> = std::env::args().collect();
     if args.len() != 3 {
@@ -851,6 +1145,12 @@ fn main() {
                 }
                 let ev = interleave(&h, db, iso, *iso_fresh, queries, acts, *slot);
                 emit(&h.log, &ev);
+            }
+            Op::Threads { slot, queries, threads, schedule, iso_fresh } => {
+                let Some(Some(db)) = slots.get(*slot) else { continue };
+                for ev in threads_op(&h, db, *iso_fresh, queries, threads, schedule, *slot) {
+                    emit(&h.log, &ev);
+                }
             }
             Op::Drop { slot } => {
                 if let Some(s) = slots.get_mut(*slot) {
